@@ -20,6 +20,8 @@ pub static C01: C01Check = C01Check;
 /// statement cap per cycle: generated loops are bounded (<= 3 nested levels of <= 8 trips, calls nest <= 3),
 /// a healthy cycle stays far below
 const STATEMENT_CAP: u64 = 3_000_000;
+/// budget for cycles of programs with a busy-wait loop (the budget is their only way out)
+const BUSY_CAP: u64 = 60_000;
 
 pub fn gen_inputs(r: &mut Rng) -> Vec<u64> {
     let mut bytes = vec![0u8; proggen::INPUT_LEN];
@@ -93,7 +95,9 @@ impl Check for C01Check {
         let mut kr = rng.fork("knobs");
         let mut pr = rng.fork("project");
         let mut or = rng.fork("ops");
-        let knobs = Knobs::swarm(&mut kr);
+        let mut knobs = Knobs::swarm(&mut kr);
+        // loops that wait for an input with an empty body: only the execution budget ends them (every cycle here runs under one)
+        knobs.busy_wait = kr.chance(1, 6);
         let size = (pr.usize(0, 3), pr.usize(0, 2), pr.usize(1, 3));
         let mut project = proggen::gen_project(&mut pr, knobs, size);
         if pr.chance(1, 3) {
@@ -141,7 +145,7 @@ impl Check for C01Check {
     }
 
     fn run(&self, case: &Json, stats: &mut Stats) -> Result<(), Violation> {
-        for p in ["probe.value_fault", "probe.budget_fault_in_nested_call", "probe.full_budget_enumeration", "probe.clock_near_i64_max", "probe.fault_then_continue", "probe.rejected_by_compiler", "probe.drift_attributed_by_twin"] {
+        for p in ["probe.value_fault", "probe.budget_fault_in_nested_call", "probe.full_budget_enumeration", "probe.clock_near_i64_max", "probe.fault_then_continue", "probe.rejected_by_compiler", "probe.drift_attributed_by_twin", "fault.budget_ends_busy_wait"] {
             stats.add(p, 0);
         }
         let src = proggen::render(&case["project"]);
@@ -193,7 +197,10 @@ impl C01Check {
         }
 
         // ---- optional: budget fault at EVERY point of the first cycle (fresh world per point)
-        if case["budget_all"].as_bool().unwrap_or(false) {
+        // a program that waits for an input in an empty loop ends its cycle only through the budget
+        let busy = src.contains("(*busy*)");
+        let cap = if busy { BUSY_CAP } else { STATEMENT_CAP };
+        if case["budget_all"].as_bool().unwrap_or(false) && !busy {
             let first_in: Vec<u8> = ops
                 .iter()
                 .find(|o| o["k"] == "cycle")
@@ -231,7 +238,7 @@ impl C01Check {
                 };
                 if !w.storage().frames().is_empty() {
                     return Err(narrowed(Violation::new(
-                        "frames/left-after-budget-fault",
+                        if fired { "frames/left-after-budget-fault".to_string() } else { format!("frames/left-after-{}", r.as_ref().err().map(variant_name).unwrap_or_else(|| "ok".into())) },
                         format!("budget fault at point {k}: {} frame(s) left ({:?})", w.storage().frames().len(), w.storage().frames().iter().map(|f| f.owner.to_string()).collect::<Vec<_>>()),
                     )));
                 }
@@ -309,7 +316,7 @@ impl C01Check {
                     // termination guard: a deadline that stays passed once the cap is reached
                     let explicit_budget = ops.get(opi.wrapping_sub(1)).is_some_and(|p| p["k"] == "budget") && opi > 0;
                     if !explicit_budget {
-                        verif_hooks::budget::arm_in(STATEMENT_CAP, true);
+                        verif_hooks::budget::arm_in(cap, true);
                     }
                     let r = guard("execute_cycle", || rt.execute_cycle())?;
                     let fired = verif_hooks::budget::fired() > armed;
@@ -341,7 +348,9 @@ impl C01Check {
                                 ));
                             }
                             if name == "ExecutionTimeout" {
-                                if !explicit_budget && fired {
+                                if !explicit_budget && fired && busy {
+                                    stats.inc("fault.budget_ends_busy_wait");
+                                } else if !explicit_budget && fired {
                                     return Err(Violation::new("termination/statement-cap", format!("op {opi}: cycle passed {STATEMENT_CAP} budget points")));
                                 }
                                 if explicit_budget {
